@@ -128,8 +128,8 @@ impl SimProp for C14 {
     }
     fn n_cases(&self, tier: Tier) -> u64 {
         match tier {
-            Tier::Quick => 40_000,
-            Tier::Thorough => 1_000_000,
+            Tier::Quick => 200_000,
+            Tier::Thorough => 5_000_000,
         }
     }
     fn generate(&self, g: &mut Gen, _tier: Tier) -> SimCase {
@@ -311,13 +311,25 @@ impl SimProp for C15 {
     }
     fn n_cases(&self, tier: Tier) -> u64 {
         match tier {
-            Tier::Quick => 40_000,
-            Tier::Thorough => 1_000_000,
+            Tier::Quick => 150_000,
+            Tier::Thorough => 4_000_000,
         }
     }
     fn generate(&self, g: &mut Gen, _tier: Tier) -> SimCase {
         let n = *g.pick(&[5, 30, 100, 300]);
-        gen_sim_case(g, n, false, &|_, _| {})
+        // a third of the cases: machines that block and pad with every flag
+        // combination (packets held back, replaced, released by bypass)
+        let heavy = g.chance(0.35);
+        gen_sim_case(g, n, false, &|g, mc| {
+            if heavy {
+                mc.action_w = [1, 1, 5, 5, 1];
+                mc.times_us = vec![0.0, 1.0, 10.0, 100.0, 1000.0, 5000.0, 20000.0];
+                mc.p_trans = *g.pick(&[0.3, 0.5, 0.7]);
+                mc.block_budgets = vec![u64::MAX];
+                mc.pad_budgets = vec![u64::MAX];
+                mc.fracs = vec![0.0];
+            }
+        })
     }
     fn check(&self, case: &SimCase, stats: &mut Stats) -> Vec<(String, String)> {
         let out = match run_sim(case) {
@@ -457,8 +469,8 @@ impl SimProp for C19 {
     }
     fn n_cases(&self, tier: Tier) -> u64 {
         match tier {
-            Tier::Quick => 20_000,
-            Tier::Thorough => 500_000,
+            Tier::Quick => 60_000,
+            Tier::Thorough => 1_500_000,
         }
     }
     fn generate(&self, g: &mut Gen, _tier: Tier) -> SimCase {
